@@ -300,6 +300,15 @@ def run(ctx):
         if i % ctx.nshards == ctx.shard:
             check(ctx, w, 'pinned', markers=['-', '1.', '123456789)'])
             check(ctx, w.replace('\n', '\r\n'), 'pinned-crlf', markers=['-', '1.', '123456789)'])
+    # deep nesting: the laws hold at every depth the interpreter's recursion limit allows (a parser-side nesting cap would
+    # make the innermost container, and any definition in it, disappear when one more level is wrapped around)
+    k = 0
+    for depth in (40, 99, 100, 101, 128):
+        for unit in ('> ', '- ', '1. ', '> - '):
+            for tail in ('x\n', '[a]: /u\n', '# h\n\n' + ' ' * 0 + 'x\n'):
+                k += 1
+                if k % ctx.nshards == ctx.shard and not (tail.startswith('#') and unit != '> '):
+                    check(ctx, unit * depth + tail.replace('\n\n', '\n' + '> ' * depth + '\n' + '> ' * depth), 'deep', markers=['-', '1.'])
     for i, ex in enumerate(workloads.spec()):
         if i % ctx.nshards == ctx.shard:
             check(ctx, ex['markdown'], 'spec')
